@@ -1,0 +1,19 @@
+// SPDX-FileCopyrightText: 2026 The Pion community <https://pion.ly>
+// SPDX-License-Identifier: MIT
+
+//go:build verif
+
+package twcc
+
+import "sync/atomic"
+
+// VerifSetNextSequenceNr presets the shared transport-wide sequence counter of the
+// header extension interceptor (verification harness only; add-only accessor).
+func (h *HeaderExtensionInterceptor) VerifSetNextSequenceNr(v uint32) {
+	atomic.StoreUint32(&h.nextSequenceNr, v)
+}
+
+// VerifNextSequenceNr reads the shared transport-wide sequence counter.
+func (h *HeaderExtensionInterceptor) VerifNextSequenceNr() uint32 {
+	return atomic.LoadUint32(&h.nextSequenceNr)
+}
